@@ -211,3 +211,20 @@ Proof.
   exact (bad_then_replies udigit uspace udigit_46 udigit_48 uspace_32 uspace_10 uspace_13 digit_space_disjoint).
 Qed.
 Print Assumptions C17_state_is_the_buffer.
+
+(* The reply code on the wire is three ASCII digits.  reply_line_pattern is a BYTES pattern
+   ([1-5]\d\d on bytes: ASCII only), so (1) whatever Reply.recv returns has a code of
+   three ASCII digits, the first 1..5; (2) a line with a byte outside ASCII in one of the
+   three code positions -- a UTF-8 encoded fullwidth / Arabic-Indic / Devanagari /
+   mathematical digit, which the STR patterns of reply.py would call a digit -- is not a
+   reply line: bad reply, the line consumed, what follows left in the buffer. *)
+Theorem C17_reply_code_is_ascii :
+  (forall buf chunks r b' ch', reply_recv udigit uspace buf chunks = GotReply r b' ch' -> is_code (r_code r)) /\
+  (forall raw d1 d2 d3 rest s, nolf raw -> strip_cr raw = d1 :: d2 :: d3 :: rest ->
+     ((128 <=? d1) || (128 <=? d2) || (128 <=? d3)) = true ->
+     recv_loop None [] (raw ++ 10 :: s) [] = RBad s []).
+Proof.
+  split; [exact (recv_code_ascii udigit uspace)|].
+  intros raw d1 d2 d3 rest s Hn E H. apply bad_line; [exact Hn|exact (non_ascii_code_line raw d1 d2 d3 rest E H)].
+Qed.
+Print Assumptions C17_reply_code_is_ascii.
